@@ -281,8 +281,8 @@ def cli_case(case, env):
 
 def check(tier, seed, t0):
     common.build_rg()
-    total = 250 if tier == "quick" else 8000
-    rep = common.merge_reports([("cli", common.run_cli_cases(None, cli_case, seed, "c04", total, 16 if tier == "quick" else 100))])
+    total = 1200 if tier == "quick" else 40000
+    rep = common.merge_reports([("cli", common.run_cli_cases(None, cli_case, seed, "c04", total, 75 if tier == "quick" else 200))])
     return common.finalize("C04", tier, seed, "exploration", RULE, rep, t0, ASSUME, floor_eval=100, floor_distinct=40)
 
 
